@@ -4,6 +4,7 @@ CONSTANTS
   R1s = {1, 2, 3}
   R2s = {1, 2, 3}
   Offs = {0, 1}
+  ExtraFK = {"DiagMeasure", "DiagPDF:S"}
 INIT Init
 NEXT Next
 CHECK_DEADLOCK FALSE
